@@ -39,7 +39,7 @@ import (
 //	                   twofa.doCertRequest serialises public keys
 //	                   -> x509=<kind>:<bits>:<e> sshmain=… ed=… #sshmain=<hex line> #ed=<hex line> #pkix=<hex PEM>
 //	k install <pref> agent|noagent
-//	                   insertSSHCertIntoAgentORWriteToFilesystem twice with the real SshMain key and a
+//	                   insertSSHCertIntoAgentORWriteToFilesystem three times with the real SshMain key and a
 //	                   locally signed certificate, under a temporary directory, with / without an agent
 //	                   -> files=<name:mode,…> agent=<comment:cert|plain,…> keyfile=<private key found in a file 0|1>
 //	k genkey <kind> <bits>   a key of any kind for the server's acceptance matrix
@@ -178,7 +178,7 @@ func TestVerifC19(t *testing.T) {
 				os.Setenv("SSH_AUTH_SOCK", sock)
 			}
 			result := "ok"
-			for round := 0; round < 2; round++ {
+			for round := 0; round < 3; round++ {
 				sshPub, _ := ssh.NewPublicKey(s.SshMain.Public())
 				cert := &ssh.Certificate{Key: sshPub, CertType: ssh.UserCert, KeyId: "username", Serial: uint64(round + 1),
 					ValidPrincipals: []string{"username"}, ValidAfter: uint64(time.Now().Unix() - 60),
